@@ -435,11 +435,6 @@ class Tdf:
         except StopIteration:
             raise ValueError(f"No block of type {type} found")
 
-        # calculate new offset for the next unused slot
-        newOffset = (
-            self.entries[-1].offset if oldEntryPos != 0 else (64 + 288 * self.nEntries)
-        )
-
         # delete entry
         self.entries.remove(oldEntry)
         self.handler.seek(64 + 288 * oldEntryPos, 0)
@@ -448,7 +443,12 @@ class Tdf:
             entry.offset -= oldEntry.size
             entry._write(self.handler)
 
-        # add new unused slot at the end
+        # add new unused slot at the end, pointing at the (new) end of the data
+        newOffset = (
+            self.entries[-1].offset + self.entries[-1].size
+            if self.entries
+            else 64 + 288 * self.nEntries
+        )
         date = datetime.now()
         newEntry = TdfEntry(
             type=BlockType.unusedSlot,
